@@ -48,11 +48,11 @@ Definition inline_blocks (a : list arg) (ln : nat) : list block :=
 Definition pim_of (pb : list block -> st -> st) : PIM := fun (a : list arg) (s : st) =>
   let blocks := inline_blocks a (line s) in
   let s1 := (if negb (process s) then s <| quiet := true |> else s)
-              <| buf := [] |> <| ws := false |> <| inl := true |> <| par := true |> <| process := true |> <| has_cur := true |> in
+              <| buf := [] |> <| ws := false |> <| inl := true |> <| par := true |> <| process := true |> <| has_cur := true |> <| sinline := [] |> in
   let s2 := pb blocks s1 in
-  let s3 := if negb (par s) then close_unclosed_inline s2 else s2 in
+  let s3 := close_unclosed_inline s2 in
   (buf s3, s3 <| buf := buf s |> <| macro := macro s |> <| args := args s |> <| ws := ws s |> <| inl := false |>
-              <| par := par s |> <| process := process s |> <| quiet := false |> <| has_cur := has_cur s |> <| line := line s3 |>).
+              <| par := par s |> <| process := process s |> <| quiet := false |> <| has_cur := has_cur s |> <| line := line s3 |> <| sinline := sinline s |>).
 
 (* macroIncludeFile *)
 Definition macro_include (pb : list block -> st -> st) (s : st) : st :=
@@ -161,7 +161,7 @@ Definition step (pb : list block -> st -> st) (b : block) (s : st) : st :=
     match b with
     | BText _ _ => (process_text s0) <| prev := [] |>
     | BMacro n a l =>
-      match assoc n (umacros s0) with
+      match (if inl s0 then None else assoc n (umacros s0)) with
       | Some m => user_macro pb m n l s0
       | None =>
         match builtin pb n with
@@ -169,7 +169,9 @@ Definition step (pb : list block -> st -> st) (b : block) (s : st) : st :=
           let sx := match bf s0 with
                     | Some _ => if is_name n "Ef" || is_name n "#if" || is_name n "#;" then s0 else err "found macro while Bf isn't closed" s0
                     | None => s0 end in
-          (h sx) <| prev := n |>
+          let s1 := h sx in
+          if is_name n "#de" || is_name n "#." || is_name n "#if" || is_name n "#;" || is_name n "#dv" || is_name n "X" then s1
+          else s1 <| prev := n |>
         | None => match n with [] => s0 | _ => if process s0 then err "unknown macro" s0 else s0 end
         end
       end
@@ -233,7 +235,7 @@ Definition nesting_fuel (wd : world) : nat := (64 + List.length (w_fs wd))%nat.
 Definition eof_sweep (s2 : st) : st :=
   let s3 := s2 <| has_cur := false |> <| macro := R "End Of File" |> in
   let s4 := close_unclosed_block (end_par PNormal (close_unclosed_inline s3)) in
-  let s5 := match top (sif s4) with Some sc => warn_unclosed sc s4 | None => s4 end in
+  let s5 := fold_left (fun a sc => warn_unclosed sc a) (rev (sif s4)) s4 in
   let s6 := match bf s5 with Some _ => err "found End Of File while Bf isn't closed" s5 | None => s5 end in
   match udef s6 with Some _ => err "found End Of File while #de isn't closed" s6 | None => s6 end.
 
